@@ -296,7 +296,8 @@ fn make_atom(l: Srcloc, v: Vec<u8>) -> SExp {
         let want_name = v[1..].to_vec();
         for p in prims() {
             if want_name == p.0 {
-                return p.1;
+                // located where the token is, not in the primitive table
+                return p.1.with_loc(l);
             }
         }
 
@@ -850,7 +851,8 @@ fn parse_sexp_step(loc: Srcloc, current_state: &SExpParseState, this_char: u8) -
                 _ => parse_sexp_step(
                     // if we don't see a '(' then process it as if the preceding '#' was part of a bareword
                     loc.clone(),
-                    &SExpParseState::Bareword(loc, vec![b'#']),
+                    // the word starts at the '#', not at the character after it
+                    &SExpParseState::Bareword(l.clone(), vec![b'#']),
                     this_char,
                 ),
             }
